@@ -99,6 +99,14 @@ def layout(kind):
         if kind == "neg":
             sl = tuple(slice(None, None, -1) for _ in range(a.ndim))
             return np.ascontiguousarray(a[sl])[sl]
+        if kind == "nonfinite":
+            # a frame with dead / saturated pixels: NaN and inf are values like any other for purity
+            b = np.ascontiguousarray(a).copy()
+            if b.dtype.kind in "fc" and b.size >= 4:
+                b.flat[b.size // 2] = np.nan
+                b.flat[b.size - 1] = np.inf
+                b.flat[1] = -np.inf
+            return b
         big = np.zeros(tuple(2 * s + 1 for s in a.shape), dtype=a.dtype)      # strided view into a larger buffer
         sl = tuple(slice(1, 2 * s + 1, 2) for s in a.shape)
         big[sl] = a
@@ -229,6 +237,10 @@ def exercise(ctx, aotools, name, fn, call, rng, lay, dt):
     return val, args, kwargs
 
 
+NONFINITE_FOR = ("centroid", "centre_of_gravity", "brightest_pixel", "quadCell", "cross_correlate", "contrast", "binImgs", "zoom", "azimuthal_average",
+                 "encircled_energy", "ft", "image_processing", "interpolation")
+
+
 def check_callable(ctx, aotools, name, fn, calls, rng, others):
     short = name.split(":")[1]
     for ci, call in enumerate(calls):
@@ -260,6 +272,11 @@ def check_callable(ctx, aotools, name, fn, calls, rng, others):
                 if not loose_equal(val, v2):
                     ctx.count("oracle_evals")
                     ctx.fail("layout_dependent_result:%s" % short, "%s gives a different result for the same values in %s layout" % (short, lay), {"callable": name, "layout": lay})
+        if any(k in name for k in NONFINITE_FOR):
+            ctx.count("nonfinite_pixel_calls")
+            with np.errstate(all="ignore"), warnings.catch_warnings():
+                warnings.simplefilter("ignore")
+                exercise(ctx, aotools, name, fn, call, rng, "nonfinite", None)
         for dt in call["dtypes"]:
             exercise(ctx, aotools, name, fn, call, rng, "C", dt)
             exercise(ctx, aotools, name, fn, call, rng, "neg", dt)
